@@ -1,5 +1,9 @@
-// Correspondence driver for the gradient-slot allocator (model M3, property C08).
+// Correspondence driver for the gradient-slot allocator and the objects that call it (model M3 + object layer, property C08).
 // usage: drv_galloc api|obj < ops
+//   api mode: the public Stack::register_gradient(s)/unregister_gradient(s) API (allocator only; the first block of ops)
+//   obj mode: real objects (adouble, aVector/aMatrix/aArray3D, special matrices, FixedArray, std::vector<adouble>, adouble[])
+//
+// allocator-level ops (both modes)
 //   reset            fresh stack
 //   a1 k             handle k := one scalar    (api: register_gradient();  obj: new adouble)
 //   av k n           handle k := block of n    (api: register_gradients(n); obj: new aVector(n))
@@ -12,12 +16,34 @@
 //                    nothing is registered and handle k does not come to exist (api: nothing; obj: new aVector(n) throws)
 //   rsx k n          resize of handle k to n whose data allocation fails: the old block is released, nothing is registered,
 //                    the emptied object is destroyed (api: unregister_gradients; obj: resize(n) throws, delete)
-// one observation line per op (same text as Adept.GradAlloc.observe)
+//   pause / cont     pause_recording / continue_recording (no-ops unless ADEPT_RECORDING_PAUSABLE)
+// object-level ops (obj mode only)
+//   pk               prints "pk <Packet<Real>::size>" (not sent to the model)
+//   cfg P V          P must be Packet<Real>::size; V=1: every later observation line carries the dump of all live objects
+//   ap k             new adouble(2.0)                         ac k s     new adouble(*s)   (copy constructor)
+//   ae k a b         new adouble((*a)*(*b)+(*a))              at k a b   new adouble(ident((*a)*(*b)+(*a))), ident takes and returns adouble by value
+//   sw a b           std::swap(*a, *b) of two adoubles
+//   vn k             new std::vector<adouble>                 vp k       emplace_back()     vo k   pop_back()    ve k i   erase(begin()+i)
+//   bn k n           new adouble[n]   (d k: delete[])
+//   am k kind d..    new active array: kind 1,2,3 aVector/aMatrix/aArray3D (dims), 10 aSquareMatrix, 11 aSymmMatrix, 14 aTridiagMatrix,
+//                    15 aDiagMatrix (one dimension); a zero dimension gives an empty array
+//   amx k kind d..   the same with the data allocation failing (no object comes to exist)
+//   cp k s           new A(*s)  (copy constructor: shares the storage)
+//   sl k s spec..    new Array((*s)(spec..)), one spec per dimension of s: f<i> (integer) or r<lo>:<hi>:<st> (stride(lo,hi,st))
+//   ln k s           *k >>= *s  (link)                       cl k       k->clear()
+//   rz k d..         k->resize(d..)                           rzx k d..  resize whose data allocation fails (object stays, empty)
+//   as k s           *k = *s    (array assignment; allocates when k is empty, a temporary copy when they overlap in memory)
+//   sa a b           swap(*a, *b) of two arrays of the same rank
+// one observation line per op: "<ret> ig= mg= nr= gaps=[..] cur=" (same text as Adept.GradAlloc.observe), with V=1 followed by
+// " | " and, by handle: k=S[idx] adouble, k=F[idx+n] FixedArray, k=V[idx,..]c<capacity> vector, k=B[idx,..] adouble[],
+// k=A<kind>[<gradient_index>+<slots spanned>@<storage gradient_index>/<n_allocated>/<n_links>~<data_ - storage data>] or
+// k=A<kind>[e] (no storage)
 #include "spy.h"
 #include <map>
 #include <malloc.h>
 #include <cerrno>
 #include <new>
+#include <utility>
 
 // ---- fault injection: the two allocation functions internal::alloc_aligned may call are interposed; only the next data
 // allocation made while g_fail_next is set (one library operation) fails.
@@ -46,118 +72,420 @@ extern "C" int posix_memalign(void** out, size_t alignment, size_t size) {
 using namespace adept;
 using verif::SpyStack;
 
-struct Obj {
-  int kind; // 1 scalar, 2 vector, 3 fixed
-  long idx; int n;
-  adouble* s; aVector* v; void* f;
+static adouble ident(adouble x) { return x; }
+
+struct Spec { bool fix; int i, lo, hi, st; };
+
+// ---- live objects
+struct Base {
+  int kind;   // 100 adouble, 101 FixedArray, 102 std::vector<adouble>, 103 adouble[]; arrays: 1,2,3,10,11,14,15
+  Base(int k) : kind(k) {}
+  virtual ~Base() {}
+  virtual std::string str() = 0;
+  // arrays only
+  virtual Base* copy() { return 0; }
+  virtual bool link(Base*) { return false; }
+  virtual bool resize(const std::vector<int>&) { return false; }
+  virtual bool clear() { return false; }
+  virtual bool assign(Base*) { return false; }
+  virtual bool swapWith(Base*) { return false; }
+  virtual Base* slice(const std::vector<Spec>&) { return 0; }
+  virtual long gidx() { return -1; }
 };
 
-template <int N> static void* mkfixed(long& idx) {
-  FixedArray<double, true, N>* p = new FixedArray<double, true, N>();
-  idx = p->gradient_index();
-  return p;
+struct ScalarH : Base {
+  adouble* p;
+  ScalarH(adouble* q) : Base(100), p(q) {}
+  ~ScalarH() { delete p; }
+  std::string str() { std::ostringstream os; os << "S[" << p->gradient_index() << "]"; return os.str(); }
+  long gidx() { return p->gradient_index(); }
+};
+template <int N> struct FixedH : Base {
+  FixedArray<double, true, N>* p;
+  FixedH() : Base(101), p(new FixedArray<double, true, N>()) {}
+  ~FixedH() { delete p; }
+  std::string str() { std::ostringstream os; os << "F[" << p->gradient_index() << "+" << N << "]"; return os.str(); }
+  long gidx() { return p->gradient_index(); }
+};
+struct VecH : Base {
+  std::vector<adouble>* p;
+  VecH() : Base(102), p(new std::vector<adouble>()) {}
+  ~VecH() { delete p; }
+  std::string str() {
+    std::ostringstream os; os << "V[";
+    for (size_t i = 0; i < p->size(); ++i) os << (i ? "," : "") << (*p)[i].gradient_index();
+    os << "]c" << p->capacity();
+    return os.str();
+  }
+};
+struct BlkH : Base {
+  adouble* p; int n;
+  BlkH(int m) : Base(103), p(new adouble[m]), n(m) {}
+  ~BlkH() { delete[] p; }
+  std::string str() {
+    std::ostringstream os; os << "B[";
+    for (int i = 0; i < n; ++i) os << (i ? "," : "") << p[i].gradient_index();
+    os << "]";
+    return os.str();
+  }
+};
+
+template <class A> struct Traits;
+template <> struct Traits<aVector>  { enum { kind = 1 };
+  static aVector* mk(const std::vector<int>& d) { return new aVector(d[0]); }
+  static void rz(aVector* p, const std::vector<int>& d) { p->resize(d[0]); } };
+template <> struct Traits<aMatrix>  { enum { kind = 2 };
+  static aMatrix* mk(const std::vector<int>& d) { return new aMatrix(d[0], d[1]); }
+  static void rz(aMatrix* p, const std::vector<int>& d) { p->resize(d[0], d[1]); } };
+template <> struct Traits<aArray3D> { enum { kind = 3 };
+  static aArray3D* mk(const std::vector<int>& d) { return new aArray3D(d[0], d[1], d[2]); }
+  static void rz(aArray3D* p, const std::vector<int>& d) { p->resize(d[0], d[1], d[2]); } };
+#define SPECIAL_TRAITS(T, K) template <> struct Traits<T> { enum { kind = K }; \
+  static T* mk(const std::vector<int>& d) { return new T(d[0]); } \
+  static void rz(T* p, const std::vector<int>& d) { p->resize(d[0]); } };
+SPECIAL_TRAITS(aSquareMatrix, 10)
+SPECIAL_TRAITS(aSymmMatrix, 11)
+SPECIAL_TRAITS(aTridiagMatrix, 14)
+SPECIAL_TRAITS(aDiagMatrix, 15)
+
+template <int R> static long span_of(Array<R, Real, true>& a) {
+  long s = 1;
+  for (int i = 0; i < R; ++i) {
+    long o = a.offset(i); if (o < 0) o = -o;
+    s += (long)(a.dimension(i) - 1) * o;
+  }
+  return s;
 }
-template <int N> static void rmfixed(void* p) { delete static_cast<FixedArray<double, true, N>*>(p); }
+template <class E> static long span_of(SpecialMatrix<Real, E, true>& a) {
+  long d = a.dimension(), o = a.offset();
+  if (Traits<SpecialMatrix<Real, E, true> >::kind >= 14) return (d - 1) * (o + 1) + 1;   // band engines
+  return (d - 1) * o + d;                                                                 // square-like engines
+}
+
+template <class A> struct ArrH;
+template <class V> static Base* wrap_view(const V& v);
+
+// slicing: only Array ranks 1..3 (overloads chosen by the static type)
+static Base* do_slice(aVector& a, const std::vector<Spec>& s);
+static Base* do_slice(aMatrix& a, const std::vector<Spec>& s);
+static Base* do_slice(aArray3D& a, const std::vector<Spec>& s);
+template <class A> static Base* do_slice(A&, const std::vector<Spec>&) { return 0; }
+
+template <class A> static bool do_swap(A&, A&) { return false; }
+static bool do_swap(aVector& a, aVector& b) { swap(a, b); return true; }
+static bool do_swap(aMatrix& a, aMatrix& b) { swap(a, b); return true; }
+static bool do_swap(aArray3D& a, aArray3D& b) { swap(a, b); return true; }
+template <class A> static bool do_assign(A&, A&) { return false; }
+static bool do_assign(aVector& a, aVector& b) { a = b; return true; }
+static bool do_assign(aMatrix& a, aMatrix& b) { a = b; return true; }
+static bool do_assign(aArray3D& a, aArray3D& b) { a = b; return true; }
+
+template <class A> struct ArrH : Base {
+  A* p;
+  ArrH(A* q) : Base(Traits<A>::kind), p(q) {}
+  ~ArrH() { delete p; }
+  std::string str() {
+    std::ostringstream os; os << "A" << kind << "[";
+    long g = p->gradient_index();
+    if (!p->storage()) { os << "e"; if (g != -9999) os << "!" << g; }
+    else os << g << "+" << span_of(*p) << "@" << p->storage()->gradient_index() << "/" << p->storage()->n_allocated()
+            << "/" << p->storage()->n_links() << "~" << (long)(p->data() - p->storage()->data());
+    os << "]";
+    return os.str();
+  }
+  long gidx() { return p->gradient_index(); }
+  Base* copy() { return new ArrH<A>(new A(*p)); }
+  bool link(Base* s) { ArrH<A>* o = dynamic_cast<ArrH<A>*>(s); if (!o) return false; *p >>= *o->p; return true; }
+  bool resize(const std::vector<int>& d) { Traits<A>::rz(p, d); return true; }
+  bool clear() { p->clear(); return true; }
+  bool assign(Base* s) { ArrH<A>* o = dynamic_cast<ArrH<A>*>(s); if (!o || o == this) return false; return do_assign(*p, *o->p); }
+  bool swapWith(Base* s) { ArrH<A>* o = dynamic_cast<ArrH<A>*>(s); if (!o || o == this) return false; return do_swap(*p, *o->p); }
+  Base* slice(const std::vector<Spec>& s) { return do_slice(*p, s); }
+};
+template <class V> static Base* wrap_view(const V& v) { return new ArrH<V>(new V(v)); }
+
+#define R(k) stride(s[k].lo, s[k].hi, s[k].st)
+#define F(k) s[k].i
+static Base* do_slice(aVector& a, const std::vector<Spec>& s) {
+  if (s[0].fix) return 0;
+  return wrap_view<aVector>(a(R(0)));
+}
+static Base* do_slice(aMatrix& a, const std::vector<Spec>& s) {
+  int m = (s[0].fix ? 0 : 2) + (s[1].fix ? 0 : 1);
+  switch (m) {
+    case 1: return wrap_view<aVector>(a(F(0), R(1)));
+    case 2: return wrap_view<aVector>(a(R(0), F(1)));
+    case 3: return wrap_view<aMatrix>(a(R(0), R(1)));
+  }
+  return 0;
+}
+static Base* do_slice(aArray3D& a, const std::vector<Spec>& s) {
+  int m = (s[0].fix ? 0 : 4) + (s[1].fix ? 0 : 2) + (s[2].fix ? 0 : 1);
+  switch (m) {
+    case 1: return wrap_view<aVector>(a(F(0), F(1), R(2)));
+    case 2: return wrap_view<aVector>(a(F(0), R(1), F(2)));
+    case 3: return wrap_view<aMatrix>(a(F(0), R(1), R(2)));
+    case 4: return wrap_view<aVector>(a(R(0), F(1), F(2)));
+    case 5: return wrap_view<aMatrix>(a(R(0), F(1), R(2)));
+    case 6: return wrap_view<aMatrix>(a(R(0), R(1), F(2)));
+    case 7: return wrap_view<aArray3D>(a(R(0), R(1), R(2)));
+  }
+  return 0;
+}
+#undef R
+#undef F
+
+static int n_args(int kind) { return kind < 10 ? kind : 1; }
+static bool known_kind(int kind) { return kind == 1 || kind == 2 || kind == 3 || kind == 10 || kind == 11 || kind == 14 || kind == 15; }
+
+// `fault`: the data allocation of the constructor fails; returns 0 and sets threw
+static Base* make_array(int kind, const std::vector<int>& d, bool fault, bool& threw) {
+  Base* r = 0; threw = false;
+  g_fail_next = fault;
+  try {
+    switch (kind) {
+      case 1: r = new ArrH<aVector>(Traits<aVector>::mk(d)); break;
+      case 2: r = new ArrH<aMatrix>(Traits<aMatrix>::mk(d)); break;
+      case 3: r = new ArrH<aArray3D>(Traits<aArray3D>::mk(d)); break;
+      case 10: r = new ArrH<aSquareMatrix>(Traits<aSquareMatrix>::mk(d)); break;
+      case 11: r = new ArrH<aSymmMatrix>(Traits<aSymmMatrix>::mk(d)); break;
+      case 14: r = new ArrH<aTridiagMatrix>(Traits<aTridiagMatrix>::mk(d)); break;
+      case 15: r = new ArrH<aDiagMatrix>(Traits<aDiagMatrix>::mk(d)); break;
+    }
+  } catch (const std::bad_alloc&) { threw = true; }
+  g_fail_next = false;
+  return r;
+}
+
+static bool parse_spec(const std::string& w, Spec& s) {
+  s = Spec();
+  if (w.size() < 2) return false;
+  if (w[0] == 'f') { s.fix = true; s.i = atoi(w.c_str() + 1); return true; }
+  if (w[0] == 'r') { s.fix = false; return sscanf(w.c_str() + 1, "%d:%d:%d", &s.lo, &s.hi, &s.st) == 3; }
+  return false;
+}
+
+struct ApiObj { int kind; long idx; int n; };   // api mode: 1 scalar, 2 vector, 3 fixed
 
 int main(int argc, char** argv) {
   bool obj = argc > 1 && std::string(argv[1]) == "obj";
   SpyStack* st = new SpyStack();
-  std::map<long, Obj> tab;
+  std::map<long, ApiObj> tab;      // api mode
+  std::map<long, Base*> objs;      // obj mode
+  bool verbose = false;
   std::string line;
+#define LINE(ret, has) do { std::cout << st->alloc_line(ret, has); \
+    if (verbose) { std::cout << " |"; for (std::map<long, Base*>::iterator it_ = objs.begin(); it_ != objs.end(); ++it_) \
+      std::cout << " " << it_->first << "=" << it_->second->str(); } \
+    std::cout << "\n"; } while (0)
+#define BAD do { std::cout << "bad-op\n"; goto next; } while (0)
   while (std::getline(std::cin, line)) {
     std::vector<std::string> w = verif::words(line);
     if (w.empty()) continue;
+    try {
     if (w[0] == "reset") {
-      if (obj) {
-        for (std::map<long, Obj>::iterator it = tab.begin(); it != tab.end(); ++it) {
-          Obj& o = it->second;
-          if (o.kind == 1) delete o.s; else if (o.kind == 2) delete o.v;
-          else { if (o.n == 1) rmfixed<1>(o.f); else if (o.n == 2) rmfixed<2>(o.f); else if (o.n == 3) rmfixed<3>(o.f); else rmfixed<4>(o.f); }
-        }
-      }
-      tab.clear();
+      for (std::map<long, Base*>::iterator it = objs.begin(); it != objs.end(); ++it) delete it->second;
+      objs.clear(); tab.clear(); verbose = false;
       delete st; st = new SpyStack();
       std::cout << "reset\n";
-    } else if (w[0] == "a1" && w.size() == 2) {
-      Obj o = Obj(); o.kind = 1; o.n = 1;
-      if (obj) { o.s = new adouble(); o.idx = o.s->gradient_index(); }
-      else o.idx = st->register_gradient();
-      tab[atol(w[1].c_str())] = o;
-      std::cout << st->alloc_line(o.idx, true) << "\n";
-    } else if (w[0] == "av" && w.size() == 3) {
-      Obj o = Obj(); o.kind = 2; o.n = atoi(w[2].c_str());
-      if (obj) { o.v = new aVector(o.n); o.idx = o.v->gradient_index(); }
-      else o.idx = st->register_gradients(o.n);
-      tab[atol(w[1].c_str())] = o;
-      std::cout << st->alloc_line(o.idx, true) << "\n";
-    } else if (w[0] == "af" && w.size() == 3) {
-      Obj o = Obj(); o.kind = 3; o.n = atoi(w[2].c_str());
-      if (o.n < 1 || o.n > 4) { std::cout << "bad-op\n"; continue; }
-      if (obj) {
-        if (o.n == 1) o.f = mkfixed<1>(o.idx); else if (o.n == 2) o.f = mkfixed<2>(o.idx);
-        else if (o.n == 3) o.f = mkfixed<3>(o.idx); else o.f = mkfixed<4>(o.idx);
-      } else o.idx = st->register_gradients(o.n);
-      tab[atol(w[1].c_str())] = o;
-      std::cout << st->alloc_line(o.idx, true) << "\n";
-    } else if (w[0] == "d" && w.size() == 2) {
-      long k = atol(w[1].c_str());
-      if (!tab.count(k)) { std::cout << "bad-op\n"; continue; }
-      Obj o = tab[k]; tab.erase(k);
-      if (obj) {
-        if (o.kind == 1) delete o.s; else if (o.kind == 2) delete o.v;
-        else { if (o.n == 1) rmfixed<1>(o.f); else if (o.n == 2) rmfixed<2>(o.f); else if (o.n == 3) rmfixed<3>(o.f); else rmfixed<4>(o.f); }
-      } else {
-        if (o.kind == 1) st->unregister_gradient(o.idx); else st->unregister_gradients(o.idx, o.n);
-      }
-      std::cout << st->alloc_line(0, false) << "\n";
+    } else if (w[0] == "pk" && w.size() == 1) {
+      std::cout << "pk " << (int)internal::Packet<Real>::size << "\n";
+    } else if (w[0] == "cfg" && w.size() == 3) {
+      if (atoi(w[1].c_str()) != (int)internal::Packet<Real>::size) { std::cout << "cfg-mismatch\n"; continue; }
+      verbose = obj && atoi(w[2].c_str()) != 0;
+      std::cout << "cfg\n";
     } else if ((w[0] == "pause" || w[0] == "cont") && w.size() == 1) {
       // registration must not depend on whether recording is paused (pausable builds; no-ops otherwise)
       if (w[0] == "pause") st->pause_recording(); else st->continue_recording();
-      std::cout << st->alloc_line(0, false) << "\n";
-    } else if (w[0] == "rs" && w.size() == 3) {
-      long k = atol(w[1].c_str()); int n = atoi(w[2].c_str());
-      if (!tab.count(k) || tab[k].kind != 2 || n < 1) { std::cout << "bad-op\n"; continue; }
-      Obj& o = tab[k];
-      if (obj) { o.v->resize(n); o.idx = o.v->gradient_index(); }
-      else { st->unregister_gradients(o.idx, o.n); o.idx = st->register_gradients(n); }
-      o.n = n;
-      std::cout << st->alloc_line(o.idx, true) << "\n";
-    } else if (w[0] == "avx" && w.size() == 3) {
-      int n = atoi(w[2].c_str());
-      if (n < 1) { std::cout << "bad-op\n"; continue; }
-      if (obj) {
-        aVector* v = 0; bool threw = false;
-        g_fail_next = true;
-        try { v = new aVector(n); } catch (const std::bad_alloc&) { threw = true; }
-        g_fail_next = false;
-        if (!threw) { delete v; std::cout << "fault-not-delivered\n"; continue; }
-      }
-      std::cout << st->alloc_line(0, false) << "\n";
-    } else if (w[0] == "rsx" && w.size() == 3) {
-      long k = atol(w[1].c_str()); int n = atoi(w[2].c_str());
-      if (!tab.count(k) || tab[k].kind != 2 || n < 1) { std::cout << "bad-op\n"; continue; }
-      Obj o = tab[k]; tab.erase(k);
-      if (obj) {
-        bool threw = false;
-        g_fail_next = true;
-        try { o.v->resize(n); } catch (const std::bad_alloc&) { threw = true; }
-        g_fail_next = false;
-        delete o.v;
-        if (!threw) { std::cout << "fault-not-delivered\n"; continue; }
-      } else st->unregister_gradients(o.idx, o.n);
-      std::cout << st->alloc_line(0, false) << "\n";
+      LINE(0, false);
     } else if (w[0] == "nr" && w.size() == 1) {
       st->new_recording();
-      std::cout << st->alloc_line(0, false) << "\n";
-    } else std::cout << "bad-op\n";
-  }
-  if (obj) {
-    for (std::map<long, Obj>::iterator it = tab.begin(); it != tab.end(); ++it) {
-      Obj& o = it->second;
-      if (o.kind == 1) delete o.s; else if (o.kind == 2) delete o.v;
-      else { if (o.n == 1) rmfixed<1>(o.f); else if (o.n == 2) rmfixed<2>(o.f); else if (o.n == 3) rmfixed<3>(o.f); else rmfixed<4>(o.f); }
+      LINE(0, false);
+    } else if (!obj) {
+      // ------------------------------------------------------------ api mode
+      if (w[0] == "a1" && w.size() == 2) {
+        long k = atol(w[1].c_str()); if (tab.count(k)) BAD;
+        ApiObj o; o.kind = 1; o.n = 1; o.idx = st->register_gradient();
+        tab[k] = o;
+        LINE(o.idx, true);
+      } else if ((w[0] == "av" || w[0] == "af") && w.size() == 3) {
+        long k = atol(w[1].c_str()); if (tab.count(k)) BAD;
+        ApiObj o; o.kind = w[0] == "av" ? 2 : 3; o.n = atoi(w[2].c_str());
+        if (o.kind == 3 && (o.n < 1 || o.n > 4)) BAD;
+        o.idx = st->register_gradients(o.n);
+        tab[k] = o;
+        LINE(o.idx, true);
+      } else if (w[0] == "d" && w.size() == 2) {
+        long k = atol(w[1].c_str());
+        if (!tab.count(k)) BAD;
+        ApiObj o = tab[k]; tab.erase(k);
+        if (o.kind == 1) st->unregister_gradient(o.idx); else st->unregister_gradients(o.idx, o.n);
+        LINE(0, false);
+      } else if (w[0] == "rs" && w.size() == 3) {
+        long k = atol(w[1].c_str()); int n = atoi(w[2].c_str());
+        if (!tab.count(k) || tab[k].kind != 2 || n < 1) BAD;
+        ApiObj& o = tab[k];
+        st->unregister_gradients(o.idx, o.n); o.idx = st->register_gradients(n);
+        o.n = n;
+        LINE(o.idx, true);
+      } else if (w[0] == "avx" && w.size() == 3) {
+        if (atoi(w[2].c_str()) < 1 || tab.count(atol(w[1].c_str()))) BAD;
+        LINE(0, false);
+      } else if (w[0] == "rsx" && w.size() == 3) {
+        long k = atol(w[1].c_str()); int n = atoi(w[2].c_str());
+        if (!tab.count(k) || tab[k].kind != 2 || n < 1) BAD;
+        ApiObj o = tab[k]; tab.erase(k);
+        st->unregister_gradients(o.idx, o.n);
+        LINE(0, false);
+      } else BAD;
+    } else {
+      // ------------------------------------------------------------ obj mode
+      long k = w.size() > 1 ? atol(w[1].c_str()) : -1;
+      if ((w[0] == "a1" || w[0] == "ap" || w[0] == "vn") && w.size() == 2) {
+        if (objs.count(k)) BAD;
+        Base* b = 0;
+        if (w[0] == "a1") b = new ScalarH(new adouble());
+        else if (w[0] == "ap") b = new ScalarH(new adouble(2.0));
+        else b = new VecH();
+        objs[k] = b;
+        if (w[0] == "a1") LINE(b->gidx(), true); else LINE(0, false);
+      } else if (w[0] == "ac" && w.size() == 3) {
+        long s = atol(w[2].c_str());
+        if (objs.count(k) || !objs.count(s) || objs[s]->kind != 100) BAD;
+        objs[k] = new ScalarH(new adouble(*static_cast<ScalarH*>(objs[s])->p));
+        LINE(0, false);
+      } else if ((w[0] == "ae" || w[0] == "at") && w.size() == 4) {
+        long a = atol(w[2].c_str()), b = atol(w[3].c_str());
+        if (objs.count(k) || !objs.count(a) || objs[a]->kind != 100 || !objs.count(b) || objs[b]->kind != 100) BAD;
+        adouble& x = *static_cast<ScalarH*>(objs[a])->p; adouble& y = *static_cast<ScalarH*>(objs[b])->p;
+        if (w[0] == "ae") objs[k] = new ScalarH(new adouble(x * y + x));
+        else objs[k] = new ScalarH(new adouble(ident(x * y + x)));   // parameter temporary: registered, released after the copy
+        LINE(0, false);
+      } else if (w[0] == "sw" && w.size() == 3) {
+        long b = atol(w[2].c_str());
+        if (!objs.count(k) || objs[k]->kind != 100 || !objs.count(b) || objs[b]->kind != 100 || k == b) BAD;
+        std::swap(*static_cast<ScalarH*>(objs[k])->p, *static_cast<ScalarH*>(objs[b])->p);
+        LINE(0, false);
+      } else if (w[0] == "af" && w.size() == 3) {
+        int n = atoi(w[2].c_str());
+        if (objs.count(k) || n < 1 || n > 4) BAD;
+        Base* b = n == 1 ? (Base*)new FixedH<1>() : n == 2 ? (Base*)new FixedH<2>() : n == 3 ? (Base*)new FixedH<3>() : (Base*)new FixedH<4>();
+        objs[k] = b;
+        LINE(b->gidx(), true);
+      } else if ((w[0] == "vp" || w[0] == "vo") && w.size() == 2) {
+        if (!objs.count(k) || objs[k]->kind != 102) BAD;
+        std::vector<adouble>* v = static_cast<VecH*>(objs[k])->p;
+        if (w[0] == "vp") v->emplace_back();
+        else { if (v->empty()) BAD; v->pop_back(); }
+        LINE(0, false);
+      } else if (w[0] == "ve" && w.size() == 3) {
+        if (!objs.count(k) || objs[k]->kind != 102) BAD;
+        std::vector<adouble>* v = static_cast<VecH*>(objs[k])->p;
+        long i = atol(w[2].c_str());
+        if (i < 0 || i >= (long)v->size()) BAD;
+        v->erase(v->begin() + i);
+        LINE(0, false);
+      } else if (w[0] == "bn" && w.size() == 3) {
+        int n = atoi(w[2].c_str());
+        if (objs.count(k) || n < 1) BAD;
+        objs[k] = new BlkH(n);
+        LINE(0, false);
+      } else if (w[0] == "d" && w.size() == 2) {
+        if (!objs.count(k)) BAD;
+        delete objs[k]; objs.erase(k);
+        LINE(0, false);
+      } else if ((w[0] == "am" || w[0] == "amx" || w[0] == "av" || w[0] == "avx") && w.size() >= 3) {
+        bool old = w[0] == "av" || w[0] == "avx";
+        bool fault = w[0] == "amx" || w[0] == "avx";
+        int kind = old ? 1 : atoi(w[2].c_str());
+        std::vector<int> d;
+        for (size_t i = old ? 2 : 3; i < w.size(); ++i) d.push_back(atoi(w[i].c_str()));
+        if (objs.count(k) || !known_kind(kind) || (int)d.size() != n_args(kind)) BAD;
+        bool zero = false;
+        for (size_t i = 0; i < d.size(); ++i) { if (d[i] < 0) BAD; if (d[i] == 0) zero = true; }
+        if ((fault || old) && zero) BAD;
+        bool threw;
+        Base* b = make_array(kind, d, fault, threw);
+        if (fault) {
+          if (!threw) { delete b; std::cout << "fault-not-delivered\n"; continue; }
+          LINE(0, false);
+        } else {
+          objs[k] = b;
+          if (old) LINE(b->gidx(), true); else LINE(0, false);
+        }
+      } else if (w[0] == "cp" && w.size() == 3) {
+        long s = atol(w[2].c_str());
+        if (objs.count(k) || !objs.count(s)) BAD;
+        Base* b = objs[s]->copy();
+        if (!b) BAD;
+        objs[k] = b;
+        LINE(0, false);
+      } else if (w[0] == "sl" && w.size() >= 4) {
+        long s = atol(w[2].c_str());
+        if (objs.count(k) || !objs.count(s)) BAD;
+        Base* src = objs[s];
+        if (src->kind > 3 || (int)w.size() - 3 != src->kind || src->gidx() == -9999) BAD;
+        std::vector<Spec> sp(w.size() - 3);
+        int nr = 0;
+        for (size_t i = 3; i < w.size(); ++i) {
+          if (!parse_spec(w[i], sp[i - 3])) BAD;
+          Spec& q = sp[i - 3];
+          // the model and the library must be asked for non-empty, in-range views only
+          if (q.fix) { if (q.i < 0) BAD; } else { if (q.lo < 0 || q.lo > q.hi || q.st < 1) BAD; ++nr; }
+        }
+        if (nr == 0) BAD;
+        // bounds (the library is built without bounds checking): against the dimensions of the source
+        {
+          ArrH<aVector>* a1 = dynamic_cast<ArrH<aVector>*>(src); ArrH<aMatrix>* a2 = dynamic_cast<ArrH<aMatrix>*>(src);
+          ArrH<aArray3D>* a3 = dynamic_cast<ArrH<aArray3D>*>(src);
+          for (size_t i = 0; i < sp.size(); ++i) {
+            int dim = a1 ? a1->p->dimension(i) : a2 ? a2->p->dimension(i) : a3->p->dimension(i);
+            if (sp[i].fix ? sp[i].i >= dim : sp[i].hi >= dim) BAD;
+          }
+        }
+        Base* b = src->slice(sp);
+        if (!b) BAD;
+        objs[k] = b;
+        LINE(0, false);
+      } else if ((w[0] == "ln" || w[0] == "as" || w[0] == "sa") && w.size() == 3) {
+        long s = atol(w[2].c_str());
+        if (!objs.count(k) || !objs.count(s) || objs[k]->kind >= 100 || objs[k]->kind != objs[s]->kind || k == s) BAD;
+        if (w[0] != "ln" && objs[k]->kind > 3) BAD;
+        try {
+          if (w[0] == "ln") objs[k]->link(objs[s]);
+          else if (w[0] == "as") objs[k]->assign(objs[s]);
+          else objs[k]->swapWith(objs[s]);
+        } catch (const adept::exception&) { }      // empty_array (link to an empty array), size_mismatch: nothing may have changed
+        LINE(0, false);
+      } else if (w[0] == "cl" && w.size() == 2) {
+        if (!objs.count(k) || objs[k]->kind >= 100) BAD;
+        objs[k]->clear();
+        LINE(0, false);
+      } else if ((w[0] == "rz" || w[0] == "rzx" || w[0] == "rs" || w[0] == "rsx") && w.size() >= 3) {
+        bool old = w[0] == "rs" || w[0] == "rsx";
+        bool fault = w[0] == "rzx" || w[0] == "rsx";
+        if (!objs.count(k) || objs[k]->kind >= 100 || (old && objs[k]->kind != 1)) BAD;
+        std::vector<int> d;
+        for (size_t i = 2; i < w.size(); ++i) d.push_back(atoi(w[i].c_str()));
+        if ((int)d.size() != n_args(objs[k]->kind)) BAD;
+        bool zero = false;
+        for (size_t i = 0; i < d.size(); ++i) { if (d[i] < 0) BAD; if (d[i] == 0) zero = true; }
+        if ((fault || old) && zero) BAD;
+        bool threw = false;
+        g_fail_next = fault;
+        try { objs[k]->resize(d); } catch (const std::bad_alloc&) { threw = true; }
+        g_fail_next = false;
+        if (w[0] == "rsx") { delete objs[k]; objs.erase(k); }
+        if (fault && !threw) { std::cout << "fault-not-delivered\n"; continue; }
+        if (w[0] == "rs") LINE(objs[k]->gidx(), true); else LINE(0, false);
+      } else BAD;
     }
+    } catch (const std::exception& e) {
+      std::cout << "exception " << e.what() << "\n";
+    }
+    next: ;
   }
+  for (std::map<long, Base*>::iterator it = objs.begin(); it != objs.end(); ++it) delete it->second;
   delete st;
   return 0;
 }
